@@ -45,10 +45,14 @@ def run_job(j):
     mod = importlib.import_module(j["module"])
     ifaces = [getattr(mod, "I%d" % i) for i in range(j["nif"])]
     classes = [getattr(mod, "C%d" % c) for c in range(j["ncl"])]
+    if j.get("root"):
+        ifaces.append(Interface)
     by_id = {id(x): n for n, x in enumerate(ifaces)}
 
     def num(x):
-        return 9 if x is Interface else by_id.get(id(x), 10)
+        if id(x) in by_id:
+            return by_id[id(x)]
+        return 9 if x is Interface else 10
 
     def lists_of(x, is_inst):
         spec = providedBy(x) if is_inst else x
